@@ -140,9 +140,9 @@ def gen_case(rng, it):
         ncol = int(rng.integers(1, 3))
     elif it % 40 == 31:
         # (8000 columns: a line of column names longer than 64 kB)
-        ncol = [1000, 1024, 1200, 8000][(it // 40) % 4]
+        ncol = [1000, 1024, 1200, 8000][int(rng.integers(0, 4))]
         nrow = 2
-    if it % 40 == 9:
+    if it % 20 == 9 and it % 3:
         ncol = 1              # (a single column, named with dashes only: see below)
     used = set()
     cols = []
@@ -152,7 +152,7 @@ def gen_case(rng, it):
         if it % 20 == 9 and j == 0:
             # a name made of dashes (or underscores, or digits) only, short and long
             name = ["-", "--", "-" * 9, "-" * 10, "-" * 12, "-" * 50, "_" * 12, "2020",
-                    "- -", "-" * 11][(it // 20) % 10]
+                    "- -", "-" * 11][int(rng.integers(0, 10))]
             used.add(name)
         kind = ["float", "int", "text"][int(rng.integers(0, 3))]
         if nrow >= 999 or ncol >= 500:
@@ -193,7 +193,7 @@ def gen_case(rng, it):
         comments[key] = rand_comment_value(rng, kind)
         if it % 29 == 6 and k == 0:
             # a very long single-line value (a list of station numbers, a WKT outline)
-            nlong = [5000, 65500, 65536, 70000, 200000][(it // 29) % 5]
+            nlong = [5000, 65500, 65536, 70000, 200000][int(rng.integers(0, 5))]
             comments[key] = ("410730, " * (nlong // 8 + 1))[:nlong].strip()
         if it % 5 == 2 and k == 0:
             # a value that quotes its own key (and the key : value separator)
